@@ -38,7 +38,15 @@ AbstractParameterAliasable::AbstractParameterAliasable(const AbstractParameterAl
 
 AbstractParameterAliasable& AbstractParameterAliasable::operator=(const AbstractParameterAliasable& ap)
 {
+  if (this == &ap)
+    return *this;
+
   AbstractParametrizable::operator=(ap);
+
+  // The parameters were all replaced by copies of ap's: forget the former
+  // independent parameters and the listeners of the former aliases.
+  independentParameters_.reset();
+  aliasListenersRegister_.clear();
 
   for (size_t i = 0; i < ap.independentParameters_.size(); i++)
   {
